@@ -33,7 +33,8 @@ EXTENDS IrrepsCatalogue, Phases12, PointGroups
 CONSTANTS Entry,    \* name of the catalogue entry
           Events,   \* set of event records (trace mode)
           QCands,   \* set of q numerators over 12 (model mode)
-          Tables    \* point-group symbol -> sequence of character-table variants (labels at Gamma)
+          Tables,   \* point-group symbol -> sequence of character-table variants (labels at Gamma)
+          AutIn     \* the exact space group Aut(C) as TLC computed it for the oracle (SpringsDump); AutExact re-derives it
 
 VARIABLES pc, ev, gam, verdict
 vars == <<pc, ev, gam, verdict>>
@@ -41,7 +42,7 @@ vars == <<pc, ev, gam, verdict>>
 C == XEntryByName(Entry)
 NA == NAtoms(C)
 DD == C.D
-AutC == Aut(C)
+AutC == AutIn
 PGC == {p[1] : p \in AutC}
 IsPrimitive == Cardinality({p \in AutC : p[1] = Id3}) = 1
 
@@ -126,6 +127,12 @@ RECURSIVE CSumSeq(_, _)
 CSumSeq(f, n) == IF n = 0 THEN CZero ELSE CAdd(f[n], CSumSeq(f, n - 1))
 Norm2(x) == CMul(x, CConj(x))
 InnerSeq(a, b) == CSumSeq([k \in 1..Len(a) |-> CMul(a[k], CConj(b[k]))], Len(a))
+
+-----------------------------------------------------------------------------
+(* the space group handed in is the one of the definition (one state; thorough tier) *)
+AInit == pc = "aut" /\ ev = <<>> /\ gam = <<>> /\ verdict = <<>>
+ANext == UNCHANGED vars
+AutExact == pc = "aut" => AutIn = Aut(C)
 
 -----------------------------------------------------------------------------
 (* model mode *)
